@@ -188,6 +188,7 @@ pub fn type_text(p: &Program, t: &Ty) -> String {
 
 fn is_atom(x: &Expr) -> bool {
     match &x.kind {
+        EKind::Mark(inner) => is_atom(inner),
         EKind::Int(i) => *i >= 0,
         EKind::Float(t) => !t.starts_with('-'),
         EKind::Str(_) | EKind::Bool(_) | EKind::Var(_) | EKind::Call(..) | EKind::Std(..) | EKind::Field(..)
@@ -613,6 +614,7 @@ impl<'a> Printer<'a> {
             EKind::MaybeJust(px) => format!("Maybe.Just {}", self.operand(px)),
             EKind::MaybeNone => "Maybe.None".to_string(),
             EKind::Raw(t) => t.clone(),
+            EKind::Mark(inner) => self.expr_inner(inner, tail),
         }
     }
 
